@@ -108,7 +108,7 @@ pub fn case(tape: &[u8], ctx: &Ctx) -> Outcome {
     //  * gzip streams on which inflateValidate switched checking off and later on again: zlib-ng 2.3.3 only resets
     //    its folding-CRC state while checking is on, so the value it compares with the trailer afterwards comes from
     //    uninitialised memory (its verdict varies from run to run; stock zlib and zlib-rs accept the valid stream).
-    //    From the re-enabling call until the next inflateInit2/inflateReset2 the inflate slot is not compared.
+    //    From the re-enabling call until the next inflateInit2 (which also rewinds the shared input) the inflate slot is not compared.
     let (mut i_gz, mut val_off, mut i_taint, mut ever_i_taint) = (false, false, false, false);
     for (k, op) in p.ops.iter().enumerate() {
         let (a, mut b) = (&rs.res[k], &ng.res[k]);
@@ -119,12 +119,10 @@ pub fn case(tape: &[u8], ctx: &Ctx) -> Outcome {
                 i_taint = false;
             }
             Op::IReset2 { wbits } if a.rc == 0 => {
+                // (a taint is NOT lifted here: while the slot was not compared the two libraries may have consumed
+                // different amounts of the shared input, and only inflateInit2 rewinds the input position)
                 i_gz = *wbits >= 16;
                 val_off = false;
-                i_taint = false;
-            }
-            Op::IReset if a.rc == 0 => {
-                i_taint = false;
             }
             Op::IResetKeep if a.rc == 0 => {
                 // inflateResetKeep (undocumented in the manual) keeps "the window" - but whether the previous stream's
